@@ -7,7 +7,13 @@ Layer 2: TxGuardChain.tla generates placements (same tx in two blocks of a branc
 box and standalone, twice in one box, re-encoded signature, expired / too early, before and after stable advances and
 restarts); the replayprot adapter builds them as REAL blocks with the real assembler and offers them to a real
 chain.BlockChain; verdicts and per-branch effects (recipient balances) are judged by TraceTxGuardChain.tla.  A recording
-driver lets the engine's own MineBlock mine with a pool filled by the engine's fork bookkeeping."""
+driver lets the engine's own MineBlock mine with a pool filled by the engine's fork bookkeeping and by arrivals (wire / RPC).
+Carriers (both layers): a transaction has a signed content and a carrier (RLP; the JSON payload of a box for a sub-transaction).
+The specs carry a carrier encoding per block / per question (constant Encs); harness/adapters/txguard/carrier.go writes real box
+payloads that way (redundant "hash" member forged, naming another real transaction, or missing; junk gasUsed; unknown members,
+member order, white space, hex case), another box around the same sub-transaction, the same sub-transaction twice in a box, in
+two boxes of a block, in a box and alone; blocks are offered with exactly those payloads.  Demanded answers / verdicts / effects
+are functions of the signed content only (negative controls CarrierKeyed / CarrierIdentity)."""
 import vlib
 LEVEL = "model_checking"
 
@@ -15,17 +21,33 @@ MANIFEST = dict(
     level="model_checking",
     text="TLC checks GuardSound/WindowSufficient/TracerComplete/NoDangling/LiveCached on the implementation-shaped replay cache for all "
          "trees of 3 (design run: 4, simulation: 5) blocks on a 30 s grid around the 1800 s lifetime / 60 s bucket boundaries, each block carrying a subset of "
-         "{t, t2 = re-encoded signature of t, box(t), u}, with stable advances (pruning), duplicate saves and restarts; every transition is replayed on the real "
-         "TxGuard with real signed transactions and every ExistTxs answer is judged by TLC. TLC-generated placements (two blocks of one branch, two forks, twice in one "
+         "{t, t2 = re-encoded signature of t, box(t), another box around t, u}, with stable advances (pruning), duplicate saves and restarts; every transition is replayed on the real "
+         "TxGuard with real signed transactions and every ExistTxs answer is judged by TLC; a second graph saves and asks in every carrier encoding of the box payloads "
+         "(forged / cross-named / missing hash member, junk gasUsed, unknown members, order, white space) - the demanded answer is a function of the signed content only. TLC-generated placements (two blocks of one branch, two forks, twice in one "
          "block, box + standalone, twice in one box, other signature encoding, expired / too early; before/after stable advances and restarts) are built as real blocks by "
          "the real assembler, offered to a real chain.BlockChain, and TLC validates: accepted iff every payload takes effect at most once on the branch and inside its "
-         "window, and recipient balances grow by exactly the packaged occurrences; the engine's own MineBlock is driven with a pool refilled from side-fork blocks.",
+         "window, and recipient balances grow by exactly the packaged occurrences - also for blocks whose box payloads are written in every carrier encoding (one t in two "
+         "differently written boxes, in another box, twice in one box, in two boxes of one block, in a box and alone; one branch and two forks); the engine's own MineBlock "
+         "is driven with a pool refilled from side-fork blocks and by arrivals through the admission lines of SendTx / handleTxsMsg (wire RLP and RPC JSON, every carrier encoding).",
     note="Layer 1 reproduces the 10-line reload loop of BlockChain.initTxPool in the adapter (it needs a whole BlockChain); layer 2 restarts through the real "
          "chain.NewBlockChain. Three genuine defects were found: duplicates inside one block and the miner re-packaging a side-fork transaction are repaired in /repo "
          "(fix: commits, known_findings.txt); signature malleability (another encoding = another tx hash) is carried as named deviation Dev_TxMalleableEncoding. "
-         "Pool admission paths (SendTx / handleTxsMsg) are not driven.",
+         "Two more defects of the same family (the transaction hash covers fields the sender did not sign) were found by the carrier work: a reimbursement transaction "
+         "priced and signed again by its gas payer (Dev_RepricedReimbursement) and a signature appended by somebody else to a transaction of a non-multisig sender "
+         "(Dev_TxExtraSignature); their placements (MCTxGuardChain_reprice.cfg / _extrasig.cfg) always run. "
+         "The pool admission paths are driven as their three lines (VerifyTxBody, TxGuard.ExistTx on the head, TxPool.AddTx) reproduced in the mining driver, not through "
+         "PublicTxAPI / ProtocolManager themselves. A block with manipulated box payloads is the mined block with the payloads put back (its header stays valid because the "
+         "identity of a box does not depend on how its payload is written).",
     technique="TLA+ model checking (TxGuard.tla, TxGuardChain.tla) + replay of TLC state graphs / simulated behaviours on the real guard and the real engine + "
               "TLC trace validation (TraceTxGuard.tla, TraceTxGuardChain.tla) + one recording driver (DPoVP.MineBlock)")
+
+
+# Genuine defects found by the carrier work (the identity of a transaction covers fields its sender did not sign): a reimbursement transaction
+# priced and signed again by its gas payer (r2), and a transaction with a signature appended by somebody else (t3), have another hash than r / t,
+# so the sender's one signed payload is executed twice.  The placements with r / r2 and with t3 are generated and judged when the deviation is
+# listed as known (KNOWN-FINDING) or after the fix (set to True: then r2 / t3 must be refused).
+REPRICED_FIXED = False
+EXTRASIG_FIXED = False
 
 
 def negative(ctx, cfg, want, module="MCTxGuard"):
@@ -48,6 +70,7 @@ def run(ctx):
         if r.get("zero_cov"):
             raise vlib.Broken("vacuity: actions never taken in MCTxGuard_full3.cfg: %s" % r["zero_cov"])
     negative(ctx, "MCTxGuard_neg.cfg", ("GuardSound",))                      # identity = hash over the signature bytes (the code)
+    negative(ctx, "MCTxGuard_negcar.cfg", ("GuardSound",))                   # identity of a sub-transaction = what the box payload says
     if not ctx.quick():
         negative(ctx, "MCTxGuard_negprune.cfg", ("GuardSound", "WindowSufficient", "TracerComplete"))   # prune 60 s too early
         negative(ctx, "MCTxGuard_negreload.cfg", ("GuardSound", "WindowSufficient", "TracerComplete"))  # reload '<' instead of '<='
@@ -57,6 +80,14 @@ def run(ctx):
     ok = ctx.validate("TraceTxGuard", "TraceTxGuard.cfg", files, what="layer 1: state-graph replay on the real TxGuard", timeout=2400)
     ctx.cov["samples"] = summ["samples"]
     ctx.cov["exhaustive"] = True
+    # carriers: the same signed content in boxes whose JSON payloads are written differently / in another box, saved and asked about
+    # in every carrier encoding (the guard must be keyed by signed content)
+    dotc = ctx.path("txguard_carrier.dot")
+    ctx.tlc_exhaustive("MCTxGuard", "MCTxGuard_carrierq.cfg" if ctx.quick() else "MCTxGuard_carrier.cfg", timeout=900, dump=dotc)
+    filesc, summc = ctx.replay("txguard", graph=dotc, shards=16, maxlen=30, name="txguard_carrier", timeout=1800)
+    okc = ctx.validate("TraceTxGuard", "TraceTxGuard.cfg", filesc, what="layer 1: carrier encodings on the real TxGuard", timeout=2400)
+    ctx.cov["samples"] += summc["samples"][:2]
+    ctx.extra["l1_carrier_transitions_replayed"] = summc["graph_edges"] if okc else 0
     ctx.extra["l1_transitions_in_graph"] = summ["graph_edges"]
     ctx.extra["l1_distinct_transitions_replayed"] = summ["graph_edges"] if ok else 0
     sim1 = ctx.tlc_simulate("MCTxGuard", "MCTxGuard_sim5.cfg", num=200 if ctx.quick() else 4000, depth=12, prefix="l1sim")
@@ -70,6 +101,7 @@ def run(ctx):
     # 300 behaviours (chunk).
     negative(ctx, "MCTxGuardChain_negdup.cfg", ("AtMostOnce",), module="MCTxGuardChain")
     negative(ctx, "MCTxGuardChain_negenc.cfg", ("AtMostOnce",), module="MCTxGuardChain")
+    negative(ctx, "MCTxGuardChain_negcar.cfg", ("AtMostOnce",), module="MCTxGuardChain")
 
     def l2(cfg, name, what, limit):
         d = ctx.path(name + ".dot")
@@ -82,6 +114,17 @@ def run(ctx):
     # placements: 2 offered blocks, every parent / time / transaction list of the menu
     sm = l2("MCTxGuardChain_quick.cfg", "l2_placements", "placements offered to the real engine", 600 if ctx.quick() else 0)
     ctx.cov["samples"] += sm["samples"][:2]
+    # carriers: 2 offered blocks, lists with boxes (one t in b, in another box w, twice in bb, in two boxes of one block, beside u) and
+    # alone, every carrier encoding of the box payloads (forged / cross-named / missing "hash" member, junk gasUsed, unknown members,
+    # member order, white space) in both blocks, same branch and two forks; thorough: more lists, stable advances and a restart
+    sm = l2("MCTxGuardChain_carrierq.cfg" if ctx.quick() else "MCTxGuardChain_carrier.cfg", "l2_carriers",
+            "carrier encodings of box payloads offered to the real engine", 0)
+    ctx.cov["samples"] += sm["samples"][:2]
+    # a reimbursement transaction priced twice by its gas payer, a signature appended by somebody else: always run (an unlisted
+    # deviation is a violation)
+    negative(ctx, "MCTxGuardChain_negpay.cfg", ("AtMostOnce",), module="MCTxGuardChain")
+    l2("MCTxGuardChain_reprice.cfg", "l2_repriced", "a reimbursement transaction priced twice by its gas payer", 300 if ctx.quick() else 0)
+    l2("MCTxGuardChain_extrasig.cfg", "l2_extrasig", "a transaction with a signature appended by somebody else", 300 if ctx.quick() else 0)
     # window / pruning / restart-reload boundaries: 3 offered blocks, lists {<<>>, <<t>>}, times {30, 1830}
     l2("MCTxGuardChain_windowq.cfg", "l2_window", "window/pruning/restart boundaries", 0)
     if not ctx.quick():
@@ -90,11 +133,14 @@ def run(ctx):
     # the engine's own miner with a pool filled by the engine's fork bookkeeping (recording driver)
     mine = ctx.path("traces", "mine.ndjson")
     ctx.drive("replayprot-mine", ["-out", mine], env={"VERIF_SCRATCH_DIR": ctx.path("work", "mine", ".keep")[:-6]})
-    ctx.validate("TraceTxGuardChain", "TraceTxGuardChain.cfg", [mine], what="layer 2: DPoVP.MineBlock after side-fork blocks", timeout=600)
+    ctx.validate("TraceTxGuardChain", "TraceTxGuardChain.cfg", [mine], what="layer 2: DPoVP.MineBlock after side-fork blocks and arrivals (wire / RPC)", timeout=600)
     # longer histories (4 offered blocks, full menu / time grid) by simulation
     sim = ctx.tlc_simulate("MCTxGuardChain", "MCTxGuardChain_sim.cfg", num=160 if ctx.quick() else 2000, depth=9, prefix="l2sim")
     files3, _ = ctx.replay("replayprot", sim=sim, shards=12, name="replayprot_sim", timeout=2400, chunk=300)
     ctx.validate("TraceTxGuardChain", "TraceTxGuardChain.cfg", files3, what="layer 2: simulated 4-block histories", timeout=1800)
+    ctx.extra["carrier_encodings"] = {"c": "canonical (types.MarshalBoxData)", "h": "hash member of every sub-transaction forged, another value per occurrence",
+                                      "k": "hash member names another real transaction (t <-> u)", "g": "no hash member, junk gasUsed (RLP gasUsed junk for candidates)",
+                                      "x": "member order reversed, white space, unknown members, upper-case hex in signatures"}
     ctx.assumptions += ["layer 2: 2 deputies, 30 s slots, block timestamps genesis + {30, 60, 1830, 1860, 1890} s; t/boxes expire at genesis+1830, u at genesis+1860",
                         "effects are observed as recipient balance / amount in the state of each block (builder and node under test)",
                         "miner driver: the chain is laid out relative to a clock read once (genesis = now - 600 s, 100000 s slots, expirations genesis + 1500 s); verdicts hold for any run shorter than 15 minutes"]
